@@ -197,30 +197,26 @@ Section Distinct.
       rewrite !rlocs_app, rlocs_scope. apply (IL_seq a c1 b); auto; [|lia]. apply (IL_seq c1 c2 b); auto.
   Qed.
 
-  Lemma local_go_R flv : forall es ns ls ats g a b,
-    Forall PeD es -> forallb frag_exp es = true -> chain W a (flat_map LS.m_exp es) b ->
-    IL a b (rlocs (fst (local_go flv ns ls ats es g))).
+  Lemma rlocs_local_add_acts : forall es ns ls ats, rlocs (local_add_acts ns ls ats es) = [].
   Proof.
-    induction es as [|e es' IH]; intros ns ls ats g a b Hall Hf Hch.
-    - rewrite local_go_nil. cbn [fst]. rewrite rlocs_local_rest. apply IL_nil.
-    - inversion Hall as [|? ? [He _] Hr]; subst. cbn [forallb] in Hf. apply andb_true_iff in Hf. destruct Hf as [Hf1 Hf2].
-      cbn [flat_map] in Hch. destruct (chain_app W _ _ _ _ Hch) as [c [C1 C2]].
-      pose proof (chain_le W _ _ _ C1) as L1. pose proof (chain_le W _ _ _ C2) as L2.
-      destruct (He Hf1 a c C1) as [_ R1]. specialize (R1 None flv g).
-      assert (Honly : fst (local_go flv ns ls ats (e :: es') g) = fst (tr_exp e None flv g) ->
-                      IL a b (rlocs (fst (local_go flv ns ls ats (e :: es') g)))).
-      { intros E. rewrite E. exact (IL_widen _ _ _ _ _ R1 (Z.le_refl a) L2). }
-      destruct ns as [|n ns']; [apply Honly; unfold local_go; destruct (tr_exp e None flv g); reflexivity|].
-      destruct ls as [|l ls']; [apply Honly; unfold local_go; destruct (tr_exp e None flv g); reflexivity|].
-      destruct ats as [|at_ ats']; [apply Honly; unfold local_go; destruct (tr_exp e None flv g); reflexivity|].
-      clear Honly. rewrite local_go_cons. destruct (tr_exp e None flv g) as [a1 g1]. cbn [fst] in R1. cbv zeta.
-      destruct es' as [|e2 es2].
-      + cbn [fst]. change (a1 ++ AAdd ?v :: ?r) with (a1 ++ [AAdd v] ++ r). rewrite !rlocs_app, rlocs_local_rest.
-        cbn [rlocs flat_map app]. rewrite app_nil_r. exact (IL_widen _ _ _ _ _ R1 (Z.le_refl a) L2).
-      + pose proof (IH ns' ls' ats' g1 c b Hr Hf2 C2) as R2.
-        destruct (local_go flv ns' ls' ats' (e2 :: es2) g1) as [a2 g2]. cbn [fst] in *.
-        change (a1 ++ AAdd ?v :: a2) with (a1 ++ [AAdd v] ++ a2). rewrite !rlocs_app. cbn [rlocs flat_map app].
-        apply (IL_seq a c b); auto.
+    induction es as [|e es' IH]; intros ns ls ats; cbn [local_add_acts]; [apply rlocs_local_rest|].
+    destruct ns as [|n ns']; [reflexivity|]. destruct ls as [|l ls']; [reflexivity|].
+    destruct ats as [|a ats']; [reflexivity|].
+    destruct es' as [|e2 es2].
+    - change (AAdd ?v :: ?r) with ([AAdd v] ++ r). rewrite rlocs_app, rlocs_local_rest. reflexivity.
+    - change (AAdd ?v :: ?r) with ([AAdd v] ++ r). rewrite rlocs_app, IH. reflexivity.
+  Qed.
+
+  Lemma local_go_R flv slv l : forall es ns ls ats g a b,
+    length ns = length ls -> length ns = length ats -> (length es <= length ns)%nat ->
+    Forall PeD es -> forallb frag_exp es = true -> chain W a (flat_map LS.m_exp es) b ->
+    IL a b (rlocs (fst (tr_stat (SLocal ns ls ats es l) flv slv g))).
+  Proof.
+    intros es ns ls ats g a b Hl Ha Hle Hall Hf Hch.
+    rewrite tr_stat_local, local_vis_thread, (local_visited_all es ns ls ats Hl Ha Hle).
+    destruct (exps_D es a b Hall Hf Hch) as [_ Q]. specialize (Q flv g).
+    destruct (thread (fun x g0 => tr_exp x None flv g0) es g) as [a1 g1]. cbn [fst] in *.
+    rewrite rlocs_app, rlocs_local_add_acts, app_nil_r. exact Q.
   Qed.
 
   Ltac bs H := repeat (apply andb_true_iff in H; let H' := fresh H in destruct H as [H H']).
@@ -415,8 +411,12 @@ Section Distinct.
       destruct (exps_D es _ _ IHe ltac:(assumption) C2) as [D1 _]. split.
       + cbn [d_stat]. rewrite dlocs_app, (dlocs_local ns ls ats es None) by assumption.
         eapply IL_perm; [apply Permutation_app_comm|]. apply (IL_seq a c0 b); auto. apply IL_ids. exact C1.
-      + intros flv slv g. rewrite tr_stat_local.
-        exact (IL_widen _ _ _ _ _ (local_go_R flv es ns ls ats g c0 b IHe ltac:(assumption) C2) L1 (Z.le_refl b)).
+      + intros flv slv g.
+        repeat match goal with
+               | H : (_ <=? _)%nat = true |- _ => apply Nat.leb_le in H
+               end.
+        exact (IL_widen _ _ _ _ _ (local_go_R flv slv l es ns ls ats g c0 b ltac:(assumption) ltac:(assumption) ltac:(assumption)
+                                              IHe ltac:(assumption) C2) L1 (Z.le_refl b)).
     - (* SLocalFunc *) intros n nl f l [_ IHf] Hf a b Hch. cbn [frag_stat] in Hf. bs Hf.
       destruct f; try discriminate. cbn [PDF LS.m_stat] in *.
       rewrite !app_assoc in Hch. destruct (chain_region W _ _ _ _ Hch) as [Hc [H2 [H3 H4]]].
@@ -516,12 +516,12 @@ Proof.
 Qed.
 
 (* the diagnostics of the file agree, as a set, with the reference on every Laid chunk of the fragment outside the
-   classes multi_local_order / later_elsewhere *)
+   class later_elsewhere (multi_local_order: repaired) *)
 Theorem usage_diags_agree_laid_only W c b all others :
-  in_fragment b = true -> classA_ok b = true -> LS.laid_b W b = true -> later_elsewhere c b others = false ->
+  in_fragment b = true -> LS.laid_b W b = true -> later_elsewhere c b others = false ->
   (forall n, name_mem n all = name_mem n (gnames (s1_gmap (first_pass c b))) || name_mem n others) ->
   forall x, In x (go_diags c b all) <-> In x (spec_diags c b others).
 Proof.
-  intros Hf Ha Hl Hle Hall. destruct (usage_laid_distinct W b Hf Hl) as [Hd Hfl].
-  exact (usage_diags_agree_laid W c b all others Hf Ha Hl Hfl Hd Hle Hall).
+  intros Hf Hl Hle Hall. destruct (usage_laid_distinct W b Hf Hl) as [Hd Hfl].
+  exact (usage_diags_agree_laid W c b all others Hf Hl Hfl Hd Hle Hall).
 Qed.
